@@ -53,6 +53,7 @@ Judge(e) ==
       [] e.ev = "call"     -> J_call(e)
       [] e.ev = "range"    -> J_range(e)
       [] e.ev = "extract"  -> J_extract(e)
+      [] e.ev = "race"     -> "data-race-in-library-code-between-independent-register-views"
       [] OTHER             -> "unknown-event"
 
 Init == l = 1 /\ payload = <<>> /\ start = 0 /\ def = BE_HIGH
